@@ -58,8 +58,33 @@ Definition tie_eps : Q := 1 # 1000000000.
 Definition argmax_tie (l : list Q) : bool :=
   negb (Nat.eqb (count_max l) 1) || Qltb (runner_up_gap l) tie_eps.
 
+(* Hull.hull_ties flags every drop test decided by an exact equality that is not structural.  Finer: an equality
+   0 = 0 is decided identically in floating point when every coordinate is ONE ratio count / (constant of the
+   group) -- equal rationals are then identical floats, their difference is exactly 0.0 and so is the product --
+   which holds for every metric of METRIC_DICT except balanced accuracy (a sum of two ratios).  Typical: three
+   points on the top edge y = 1 of a ROC curve. *)
+Definition fragile_eq_nz (r0 r1 r2 : pt) : bool :=
+  fragile_eq r0 r1 r2 && negb (Qeqb ((py r1 - py r0) * (px r2 - px r0)) 0).
+
+Fixpoint pop_ties_nz (st : list pt) (r2 : pt) : bool :=
+  match st with
+  | r1 :: st' =>
+      match st' with
+      | r0 :: _ => fragile_eq_nz r0 r1 r2 || (if drop_test r0 r1 r2 then pop_ties_nz st' r2 else false)
+      | [] => false
+      end
+  | [] => false
+  end.
+
+Definition hull_ties_nz (pts : list pt) : bool :=
+  snd (fold_left (fun (a : list pt * bool) r2 => (hull_step (fst a) r2, snd a || pop_ties_nz (fst a) r2))
+                 pts ([], false)).
+
+Definition single_ratio (m : metric) : bool := match m with BalAcc => false | _ => true end.
+
 Definition hull_tie (flip : bool) (mx my : metric) (gs : list group) : bool :=
-  existsb (fun g => hull_ties (tradeoff_points flip mx my g)) gs.
+  existsb (fun g => if single_ratio mx && single_ratio my then hull_ties_nz (tradeoff_points flip mx my g)
+                    else hull_ties (tradeoff_points flip mx my g)) gs.
 
 Definition simple_tie (flip : bool) (mx my : metric) (N : positive) (gs : list group) : bool :=
   argmax_tie (fs_overall (fit_simple flip mx my N gs)) || hull_tie flip mx my gs.
@@ -137,3 +162,31 @@ Definition pad_zero (n : nat) (w : T.weights) : T.weights :=
 (* the attribute weights_ after fit, n = len(self._hs) *)
 Definition eg_fit_weights (prec : Q) (n : nat) (its : list eg_iter) : T.weights :=
   pad_zero n (eg_selected prec its).
+
+(* ---------- the same pipeline with the source-dependent pieces as parameters (instantiated in props/C10.v
+   with the fragments translators/t_egweights.py and t_egconst.py regenerate) ----------
+     new, step : `Qsum.at[h_idx] = new`, `Qsum[h_idx] += ...`        norm : Q_EG from the values of Qsum
+     padv      : the value stored for predictor ids missing in weights_
+     keep, ret : the EG/LP choice of one iteration and the selection of best_iter_ *)
+Fixpoint bump_gen (new : Q) (step : Q -> Q) (h : nat) (s : list (nat * Q)) : list (nat * Q) :=
+  match s with
+  | [] => [(h, step new)]
+  | (k, v) :: r => if Nat.eqb h k then (k, step v) :: r else (k, v) :: bump_gen new step h r
+  end.
+
+Definition qsum_series_gen (new : Q) (step : Q -> Q) (hs : list nat) : list (nat * Q) :=
+  fold_left (fun s h => bump_gen new step h s) hs [].
+
+Definition q_eg_gen (new : Q) (step : Q -> Q) (norm : list Q -> list Q) (hs : list nat) : T.weights :=
+  let s := qsum_series_gen new step hs in combine (map fst s) (norm (map snd s)).
+
+Definition pad_zero_gen (padv : Q) (n : nat) (w : T.weights) : T.weights :=
+  fold_left (fun acc t => if has_id t acc then acc else acc ++ [(t, padv)]) (seq 0 n) w.
+
+Definition eg_fit_weights_gen (new : Q) (step : Q -> Q) (norm : list Q -> list Q) (padv : Q)
+    (keep : T.weights -> Q -> option (T.weights * Q) -> T.weights * Q)
+    (ret : T.weights -> list Q -> list T.weights -> nat * Q * T.weights)
+    (n : nat) (its : list eg_iter) : T.weights :=
+  let ps := map (fun it => keep (q_eg_gen new step norm (it_hs it)) (it_gap it)
+                                (match it_lp it with Some xg => Some (q_lp (fst xg), snd xg) | None => None end)) its in
+  pad_zero_gen padv n (SF.ret_weights (ret ([] : T.weights) (map snd ps) (map fst ps))).
